@@ -145,7 +145,8 @@ def _undo_last(db):
     tmu.commit()
 
 
-def scenario(kind, cls, refset, nwriters, order, prelude='plain'):
+def scenario(kind, cls, refset, nwriters, order, prelude='plain',
+             touch=False):
     """One scenario; returns (outcome, violations).
 
     prelude: how the revisions the conflict is about came to be --
@@ -162,10 +163,15 @@ def scenario(kind, cls, refset, nwriters, order, prelude='plain'):
                order=list(order))
     if prelude != 'plain':
         wit['prelude'] = prelude
+    if touch:
+        # the last writer stores the state it started from (a "touch"):
+        # still a conflict, still the class's resolver that decides
+        wit['touch'] = True
 
     def bad(c, s, det):
-        viol.append((c, '%s:%s' % (s if prelude == 'plain' else
-                                   prelude + ':' + s, cls), det))
+        viol.append((c, '%s%s:%s' % ('touch:' if touch else '',
+                                     s if prelude == 'plain' else
+                                     prelude + ':' + s, cls), det))
     want = {}
 
     def create(db):
@@ -215,7 +221,8 @@ def scenario(kind, cls, refset, nwriters, order, prelude='plain'):
             c = db.open(tm)
             obj = c.root()['o']
             obj.v
-            writers.append((tm, c, obj, 10 ** i))
+            writers.append((tm, c, obj, 0 if touch and i == nwriters - 1
+                            else 10 ** i))
         base_v = 0
         committed_v = 0
         outcomes = []
@@ -525,6 +532,15 @@ def task(kind, cls, refset, prelude='plain', maxw=3):
     for nwriters in range(2, maxw + 1):
         for order in itertools.permutations(range(nwriters)):
             out, viol = scenario(kind, cls, refset, nwriters, order, prelude)
+            if nwriters == 2 and prelude == 'plain':
+                out2, viol2 = scenario(kind, cls, refset, nwriters, order,
+                                       prelude, touch=True)
+                viol = viol + viol2
+                res['cov']['traces_validated_against_impl'] += 1
+                res['cov']['states'] += 1
+                res['cov']['evaluations'] += 1
+                key2 = 'touch:%s:%s' % (cls, '/'.join(out2))
+                res['outcomes'][key2] = res['outcomes'].get(key2, 0) + 1
             res['cov']['traces_validated_against_impl'] += 1
             res['cov']['states'] += 1
             res['cov']['transitions'] += nwriters
@@ -571,7 +587,8 @@ def run(rep, tier, seed, workers):
         '{none, ordinary, bare-oid, weak, cross-database, weak '
         'cross-database, all four} x 2..3 (thorough: 2..5) stale writers x '
         'every commit '
-        'order; the same with the base revision, or the revision committed '
+        'order (for 2 writers also with the last one storing the state it '
+        'started from); the same with the base revision, or the revision committed '
         'under the writers, written by a transactional undo (a record '
         'without its own pickle) on FileStorage, DemoStorage(Mapping/File) '
         'and in the FileStorage base of a DemoStorage; the undo path '
@@ -617,7 +634,8 @@ def replay(w):
     else:
         out, viol = scenario(wit['kind'], wit['cls'], tuple(wit['refs']),
                              wit['writers'], tuple(wit['order']),
-                             wit.get('prelude', 'plain'))
+                             wit.get('prelude', 'plain'),
+                             wit.get('touch', False))
         kind = wit['kind']
     for v in viol:
         print(v)
